@@ -51,14 +51,14 @@ def gen_ops(rng, m, t):
         elif kind == 'input':
             sform = rng.choice(['none', 'int', 'list'])
             S = None if sform == 'none' else (rng.randrange(m) if sform == 'int' else subset(rng, m, allow_empty=False))
-            ops.append({'kind': 'input', 'S': S, 'type': rng.choice(['int', 'int', 'fxp', 'fld', 'flt', 'grp', 'intlist']), 'base': rng.randint(-20, 20)})
+            ops.append({'kind': 'input', 'S': S, 'type': rng.choice(['int', 'int', 'fxp', 'fld', 'flt', 'grp', 'intlist', 'intlist', 'xfld']), 'base': rng.randint(-20, 20)})
         else:
             rform = rng.choice(['none', 'int', 'list', 'list'])
             R = None if rform == 'none' else (rng.randrange(m) if rform == 'int' else subset(rng, m, allow_empty=rng.random() < 0.4))
             thr = rng.choice([None, None] + list(range(t, 2 * t + 1)))
             if thr is not None and thr > m - 1:
                 thr = None
-            ops.append({'kind': 'output', 'R': R, 'thr': thr, 'type': rng.choice(['int', 'int', 'fxp', 'fld', 'flt', 'grp', 'intlist']), 'val': rng.randint(-30, 30),
+            ops.append({'kind': 'output', 'R': R, 'thr': thr, 'type': rng.choice(['int', 'int', 'fxp', 'fld', 'flt', 'grp', 'intlist', 'xfld']), 'val': rng.randint(-30, 30),
                         'owner': rng.randrange(m)})
     return ops
 
@@ -121,6 +121,8 @@ def run(shard, rec):
 
         async def program(mpc, pid):
             types = {'int': mpc.SecInt(16), 'fxp': mpc.SecFxp(16, 8), 'fld': mpc.SecFld(101), 'flt': mpc.SecFlt(16), 'grp': mpc.SecGrp(G)}
+            # two fields of the same order with different irreducible moduli (AES and Reed-Solomon polynomials), used in one run
+            xf = [mpc.SecFld(modulus='x^8+x^4+x^3+x+1'), mpc.SecFld(modulus='x^8+x^4+x^3+x^2+1')]
 
             def mk(tp, v):
                 if tp == 'grp':
@@ -154,8 +156,18 @@ def run(shard, rec):
                     elif op['kind'] == 'input':
                         tp = op['type']
                         mine = op['base'] + 3 * pid
+                        if tp == 'xfld':
+                            order = (0, 1) if op['base'] % 2 else (1, 0)        # which of the two fields is used first varies (same at all parties)
+                            res = {}
+                            for fi in order:
+                                yy = mpc.input(xf[fi]((mine + 17 * fi) % 256), senders=as_arg(op['S']))
+                                res[fi] = await opened(yy) if isinstance(op['S'], int) else [await opened(a) for a in yy]
+                            got[pid][k] = [res[0], res[1]] if isinstance(op['S'], int) else [[a, b] for a, b in zip(res[0], res[1])]
+                            continue
                         x = [mk('int', mine), mk('int', mine + 1)] if tp == 'intlist' else mk(tp, mine)
                         y = mpc.input(x, senders=as_arg(op['S']))
+                        if tp == 'intlist':
+                            x[0], x[1] = mk('int', 99), mk('int', -99)       # the caller reuses its buffer right after the call: the values as passed are the inputs
                         if isinstance(op['S'], int):
                             got[pid][k] = await opened(y)
                         else:
@@ -163,6 +175,15 @@ def run(shard, rec):
                     else:
                         tp = op['type']
                         v = op['val']
+                        if tp == 'xfld':
+                            order = (0, 1) if v % 2 else (1, 0)
+                            kw = {} if op['thr'] is None else {'threshold': op['thr']}
+                            res = {}
+                            for fi in order:
+                                xx = mpc.input(xf[fi]((v + 17 * fi) % 256 if pid == op['owner'] else 0), senders=op['owner'])
+                                res[fi] = await mpc.output(xx, receivers=as_arg(op['R']), **kw)
+                            got[pid][k] = None if res[0] is None and res[1] is None else [res[0], res[1]]
+                            continue
                         x = [mk('int', v), mk('int', v + 7)] if tp == 'intlist' else mk(tp, v)
                         # the value is shared first (by its owner) so that recombination really happens
                         if tp == 'intlist':
@@ -175,7 +196,7 @@ def run(shard, rec):
                 except Exception as e:
                     got[pid][k] = ('EXC', f'{type(e).__name__}: {e}')
             return True
-        w = sim.World(m, t, no_prss, seed=sseed, policy=policy).run(program)
+        w = sim.World(m, t, no_prss, seed=sseed, policy=policy, history='auto').run(program)
         rec.count('runs')
         done = w.ok_results() is not None
 
@@ -222,7 +243,8 @@ def run(shard, rec):
 
                 def val(s):
                     mine = op['base'] + 3 * s
-                    return {'int': mine, 'fld': mine % 101, 'fxp': mine / 4, 'flt': mine * 1.5, 'grp': int(G.generator ^ (mine % 1000)), 'intlist': [mine, mine + 1]}[tp]
+                    return {'int': mine, 'fld': mine % 101, 'fxp': mine / 4, 'flt': mine * 1.5, 'grp': int(G.generator ^ (mine % 1000)), 'intlist': [mine, mine + 1],
+                            'xfld': [mine % 256, (mine + 17) % 256]}[tp]
                 exp = val(S[0]) if isinstance(op['S'], int) else [val(s) for s in S]
                 for pid in range(m):
                     g = got[pid][k]
@@ -234,7 +256,7 @@ def run(shard, rec):
                 rec.count('output_ops')
                 R = as_set(op['R'], m)
                 tp, v = op['type'], op['val']
-                exp = {'int': v, 'fld': v % 101, 'fxp': v / 4, 'flt': v * 1.5, 'grp': int(G.generator ^ (v % 1000)), 'intlist': [v, v + 7]}[tp]
+                exp = {'int': v, 'fld': v % 101, 'fxp': v / 4, 'flt': v * 1.5, 'grp': int(G.generator ^ (v % 1000)), 'intlist': [v, v + 7], 'xfld': [v % 256, (v + 17) % 256]}[tp]
                 seen = []
                 for pid in range(m):
                     g = got[pid][k]
